@@ -204,8 +204,8 @@ def enabled(obj, model):
         add(('len-iter',), lambda o: [(None, same(), [] if (len(o) == nr and len(list(o)) == nr) else
                                        [('wrong-rdms', 'len()=%r, iteration yields %d of %d' % (len(o), len(list(o)), nr))])])
     # --- subset / subsample of RDMs --------------------------------------------------------
-    for by in ['index'] + [k for k in RD_ALL if k not in model['rd_some']]:
-        desc = [_plain(v) for v in obj.rdm_descriptors[by]]
+    for by in [None, 'index'] + [k for k in RD_ALL if k not in model['rd_some']]:
+        desc = [_plain(v) for v in obj.rdm_descriptors[by or 'index']]   # by=None means 'index'
         u = _uniq(desc)
         menu = [u[0]] + ([u[-1]] if len(u) > 1 else []) + ([[u[0], u[-1]]] if len(u) > 1 else [[u[0]]])
         for val in menu:
@@ -217,10 +217,14 @@ def enabled(obj, model):
         want = [r for v in rep for r, d in zip(rids, desc) if selfdesc._eq(d, v)]
         add(('subsample', by, rep), lambda o, by=by, rep=rep, want=want:
             [(n := o.subsample(by, rep), same(), _expect(n, want, cids))[0:3]])
+        # a single value instead of a list
+        want1 = [r for r, d in zip(rids, desc) if selfdesc._eq(d, u[-1])]
+        add(('subsample', by, u[-1]), lambda o, by=by, v=u[-1], want1=want1:
+            [(n := o.subsample(by, v), same(), _expect(n, want1, cids))[0:3]])
     # --- subset / subsample of conditions -----------------------------------------------------
     if nc >= 2:
-        for by in ['index'] + list(model['pd']):
-            desc = [_plain(v) for v in obj.pattern_descriptors[by]]
+        for by in [None, 'index'] + list(model['pd']):
+            desc = [_plain(v) for v in obj.pattern_descriptors[by or 'index']]   # by=None means 'index'
             u = _uniq(desc)
             menu = []
             for val in ([[u[0], u[-1]]] if len(u) > 1 else []) + [u[0]]:
